@@ -17,11 +17,6 @@ pub fn vx_next_lc_id() -> (r: u32)
 #[verifier::external_body]
 pub fn parse_ctrl_sw_version_payload(is_big_endian: bool, payload: &[u8]) -> (r: Option<String>)
 { unimplemented!() }
-// <[u8]>::get(0..4): Some(first four bytes) iff the slice has at least four
-#[verifier::external_body]
-pub fn vx_slice_get_0_4<'a>(s: &'a [u8]) -> (r: Option<&'a [u8]>)
-    ensures r is Some <==> s@.len() >= 4, r is Some ==> r->Some_0@ == s@.subrange(0, 4),
-{ s.get(0..4) }
 #[verifier::external_body]
 pub fn vx_u32_from_bool(b: bool) -> (r: u32)
     ensures r == (if b { 1u32 } else { 0u32 }),
